@@ -399,14 +399,15 @@ static void run_C04(const Args &a, long cs) {
 	std::string fl;
 	for (int d = 0; d < nd; d++) {
 		unsigned o = (unsigned)r.below(6); int nk = 2 * o + 2 + (int)r.below(12);
-		int kind = (int)r.below(7);
+		int kind = (int)r.below(8);
 		std::vector<double> k;
-		const char *kn[] = {"unit", "repeated", "tiny1e-300", "huge1e300", "ratio1e12", "denormal", "clamped"};
+		const char *kn[] = {"unit", "repeated", "tiny1e-300", "huge1e300", "ratio1e12", "denormal", "clamped", "both-signs-near-DBL_MAX(span-overflows)"};
 		double x0, sc;
 		switch (kind) {
 		case 2: sc = 1e-300; x0 = (r.U() - 0.5) * 1e-299; break;
 		case 3: sc = 1e296; x0 = -1e299 * r.U(); break;
 		case 5: sc = 5e-324 * (1 + r.below(50)); x0 = r.coin(0.5) ? 0.0 : -5e-324 * r.below(40); break;
+		case 7: sc = 0; x0 = 0; break; // filled below: finite increasing knots from about -1.6e308 to +1.6e308, so that last - first is not representable
 		default: sc = 1; x0 = r.U() * 10 - 5; break;
 		}
 		double x = x0;
@@ -418,6 +419,7 @@ static void run_C04(const Args &a, long cs) {
 			if (kind == 1 && o >= 1 && i > (int)o && i < nk - (int)o - 2 && r.coin(0.35)) st = 0;
 			x += st;
 		}
+		if (kind == 7) { k.clear(); double lo = -1.6e308 * (0.8 + 0.2 * r.U()), hi = 1.6e308 * (0.8 + 0.2 * r.U()); std::vector<double> u; for (int i = 0; i < nk; i++) u.push_back(r.U()); std::sort(u.begin(), u.end()); u[0] = 0; u[nk - 1] = 1; for (int i = 0; i < nk; i++) k.push_back(lo * (1 - u[i]) + hi * u[i]); for (int i = 1; i < nk; i++) if (!(k[i] > k[i - 1])) k[i] = std::nextafter(k[i - 1], INFINITY); }
 		if (kind == 1) { int run = 1; for (int i = 1; i < nk; i++) { if (k[i] == k[i - 1]) { run++; if (run > (int)o) { for (int j = i; j < nk; j++) k[j] += 0.5; run = 1; } } else run = 1; } }
 		if (kind == 6) for (unsigned i = 0; i < o; i++) { k[i] = k[o]; k[nk - 1 - i] = k[nk - 1 - o]; }
 		s.order.push_back(o); s.knots.push_back(k); tot *= (size_t)(nk - o - 1);
@@ -436,13 +438,13 @@ static void run_C04(const Args &a, long cs) {
 		for (double kk : k) { p.push_back(kk); p.push_back(std::nextafter(kk, INFINITY)); p.push_back(std::nextafter(kk, -INFINITY)); }
 		double sp[] = {INFINITY, -INFINITY, 0.0, -0.0, 5e-324, -5e-324, std::numeric_limits<double>::max(), -std::numeric_limits<double>::max(), std::numeric_limits<double>::min(), 1.0, -1.0};
 		for (double v : sp) p.push_back(v);
-		for (int i = 0; i < 12; i++) p.push_back(k[0] + (k.back() - k[0]) * (r.U() * 1.2 - 0.1));
+		for (int i = 0; i < 12; i++) { double t = r.U() * 1.2 - 0.1; p.push_back(t < 0 || t > 1 ? k[0] + (k.back() * 0.5 - k[0] * 0.5) * 2 * t : k[0] * (1 - t) + k.back() * t); } // (convex combination: the span itself may not be representable)
 	}
 	size_t npts = nd == 1 ? cand[0].size() : (a.tier == "thorough" ? 600 : 250);
 	std::vector<double> xv(nd); std::vector<int> want(nd);
 	for (size_t p = 0; p < npts; p++) {
 		if (nd == 1) xv[0] = cand[0][p];
-		else { size_t special = r.below(nd); for (int d = 0; d < nd; d++) { if ((size_t)d == special || r.coin(0.3)) xv[d] = r.pick(cand[d]); else { auto &k = s.knots[d]; xv[d] = k[0] + (k.back() - k[0]) * r.U(); } } }
+		else { size_t special = r.below(nd); for (int d = 0; d < nd; d++) { if ((size_t)d == special || r.coin(0.3)) xv[d] = r.pick(cand[d]); else { auto &k = s.knots[d]; double t = r.U(); xv[d] = k[0] * (1 - t) + k.back() * t; } } }
 		bool exp_ok = true;
 		for (int d = 0; d < nd; d++) { bool ok1; want[d] = ref_center(s.knots[d], s.order[d], xv[d], ok1); if (!ok1) exp_ok = false; }
 		Exact<double> x(xv); Exact<int> c(nd), cc(nd);
